@@ -423,3 +423,7 @@ impl KeyValueResult {
 
 #[cfg(test)]
 mod tests;
+
+#[cfg(kani)]
+#[path = "/verif/kani/crux_kv.rs"]
+mod verif_kani;
